@@ -67,6 +67,11 @@ pub const TAGS_TIME_BIG: &[&str] = &[
     "pending_not_future", "init_missing", "report_exact", "error_class",
 ];
 
+pub const TAGS_TIME_BATCH: &[&str] = &[
+    "step_time", "time_backwards", "handler_time", "time_read", "sched_missed", "sched_dup", "sched_wrong_time", "sched_overdue", "cmd_time",
+    "pending_not_future", "half_handler", "pending_send",
+];
+
 pub const TAGS_TIME: &[&str] = &[
     "step_time",
     "time_backwards",
@@ -195,6 +200,13 @@ pub fn c01(tier: &str) -> Vec<Family> {
     g.scenarios.retain(|s| s.label.starts_with("lag_above") || s.label.starts_with("lag_no_tolerance"));
     fams.push(g);
     fams.push(Family::new("far_future", TAGS_TIME, far_future_scenarios(&spec)));
+    {
+        // Same-time batches larger than the mailbox, with a competing sender: everything due at a
+        // time runs at that time (no handler left suspended into a later step).
+        let mut b = family_named(c03(tier), "scheduler_batches");
+        b.tags = TAGS_TIME_BATCH;
+        fams.push(b);
+    }
     {
         let c9 = family_named(c09(tier), "cancelled_runs");
         let thin: Vec<Scenario> = c9.scenarios.into_iter().enumerate().filter(|(i, _)| tier != "quick" || i % 3 == 0).map(|(_, s)| s).collect();
@@ -1579,7 +1591,7 @@ pub fn c10(tier: &str) -> Vec<Family> {
         out.push(Family::new("cancelled_runs", &["cancel_ignored", "sched_missed", "sched_dup", "sched_wrong_time", "step_time", "cmd_time", "handler_time"], runs).cap(cap));
         // Periodic events armed from init() with relative and absolute first deadlines (the time seen in init is the start time).
         let mut sc_i = vec![];
-        for p in [1u64, 2] {
+        for p in [1u64, 2, 1_000_000_000] {
             for w in [When::Rel(1), When::Rel(2), When::Abs(2)] {
                 for kd in [SKind::Periodic(p), SKind::KeyedPeriodic(p)] {
                     let m = NodeSpec::new("M", 2).script(1, vec![Op::ReadTime]).init(vec![Op::ReadTime, sched_self(kd, w, 1, 0)]);
@@ -1591,9 +1603,10 @@ pub fn c10(tier: &str) -> Vec<Family> {
             }
         }
         let tags_i: &'static [&'static str] = &["sched_missed", "sched_dup", "sched_wrong_time", "step_time", "sched_overdue", "handler_time", "time_read", "cmd_time", "sched_validation"];
-        out.push(Family::new("periodic_from_init", tags_i, sc_i.clone()).cap(cap));
-        out.push(Family::new("periodic_from_init@-1s", tags_i, sc_i.clone()).cap(cap).epoch(-1));
-        out.push(Family::new("periodic_from_init@2^33", tags_i, sc_i).cap(cap).epoch((1i64 << 33) - 1));
+        // (These scenarios are finite: a stepping call that does not return is executing occurrences that do not exist.)
+        out.push(Family::new("periodic_from_init", tags_i, sc_i.clone()).cap(cap).hang_violation());
+        out.push(Family::new("periodic_from_init@-1s", tags_i, sc_i.clone()).cap(cap).epoch(-1).hang_violation());
+        out.push(Family::new("periodic_from_init@2^33", tags_i, sc_i).cap(cap).epoch((1i64 << 33) - 1).hang_violation());
     }
     // The same series with start times before the epoch and crossing it.
     if let Some(base) = out.first() {
